@@ -351,6 +351,9 @@ def check(ctx, rep):
     rule_line_suffix(ctx, rep)
     rule_pattern_args(ctx, rep)
     rule_glob_only(ctx, rep)
+    from .c18 import rule_scan_targets
+
+    rule_scan_targets(ctx, rep)
     rep.not_covered += [
         "which paths match which glob (fnmatch semantics over trees x patterns)",
         "liveness 'every selected file with a fixable construct is fixed' beyond the lost-update rule evaluated under C18",
